@@ -36,7 +36,7 @@ def cases(ctx):
             fr = frame[:cut]
             out.append(Case(P.pkt_line(fr, full), ("full-path", name)))
             out.append(Case(P.pkt_line(fr, P.dollar_script()), ("dollar", name)))
-            for _ in range(ctx.scale(1, 4)):
+            for _ in range(ctx.scale(2, 4)):
                 out.append(Case(P.pkt_line(fr, P.random_read_script(rng, layers)), ("random-reads", name)))
     # unstructured frames
     for _ in range(ctx.scale(300, 20000)):
